@@ -11,6 +11,9 @@ Tie (every run, real object code of the current tree, harness/c/c10_harness.c):
   M  read_session_map on real files; record_proc_maps (libmcount) on a fake /proc/self/maps
   D  whole data directories (task.txt + sid-*.map + *.sym): read_task_txt_file, then
      task_find_sym_addr for probes (tid, time, addr) - sessions by time, fork/exec, dlopen, ASLR
+  R  real recordings of programs that dlopen() an instrumented library whose constructor / C++ global initialiser
+     call traced functions and dlopen() a second library: every record judged against dladdr + nm ground truth,
+     DLOP time <= record time for every record inside the library (record-side ordering invariant)
   E  end to end: `uftrace replay` on a synthetic directory with two sessions and a real
      record/replay of a PIE program with a shared library and dlopen (also --with-syms)
 Every answer of the implementation is compared with the model inside Coq (mismatch) and judged
@@ -983,6 +986,327 @@ def part_e2e(ctx, objdir):
         ctx.tag("E:aslr-bases-differ")
 
 
+
+# ---------------------------------------------------------------- R: real recordings with static initialisers
+# A program dlopen()s an instrumented library whose ELF constructor and C++ global initialiser call
+# traced functions; the constructor dlopen()s a second library.  Ground truth: the load bases the
+# program itself logs (dladdr) and `nm -S` of the ELF files.  EVERY record of the run is judged.
+R_DEP_C = "int c10dep_fn(int x) { return x + 100; }\n"
+R_LIB_C = "int c10lib_fn(int x) { return x * 3; }\n"
+R_B_CC = r"""
+#include <stdio.h>
+#include <dlfcn.h>
+extern "C" int c10b_helper(int x) { return x * 5; }
+struct C10BInit { int v; C10BInit() { v = 0; for (int i = 0; i < %(nb)d; i++) v += c10b_helper(i); } };
+static C10BInit c10b_global;
+static int c10b_value = c10b_helper(7);
+extern "C" int c10b_run(int x) { return c10b_global.v + c10b_value + x; }
+__attribute__((constructor)) static void c10b_ctor(void)
+{ Dl_info i; if (dladdr((void *)&c10b_run, &i)) fprintf(stderr, "C10BASE %%s %%lx\n", i.dli_fname, (unsigned long)i.dli_fbase); }
+"""
+R_A_C = r"""
+#define _GNU_SOURCE
+#include <dlfcn.h>
+#include <stdio.h>
+#include <stdlib.h>
+%(depdecl)s
+static int table[4];
+int c10a_fill(int i) { table[i & 3] = %(depcall)s; return i; }
+int c10a_run(int x) { return table[x & 3] + x; }
+__attribute__((constructor)) static void c10a_init(void)
+{
+	Dl_info di; void *h; int (*f)(int); int i;
+	for (i = 0; i < %(na)d; i++) c10a_fill(i);
+	if (dladdr((void *)&c10a_run, &di)) fprintf(stderr, "C10BASE %%s %%lx\n", di.dli_fname, (unsigned long)di.dli_fbase);
+	%(deplog)s
+	if (getenv("C10_LIBB") && getenv("C10_LIBB")[0] && (h = dlopen(getenv("C10_LIBB"), %(flagb)s))) {
+		f = (int (*)(int))dlsym(h, "c10b_run");
+		if (f) table[3] = f(2);
+	}
+}
+"""
+R_MAIN_C = r"""
+#define _GNU_SOURCE
+#include <dlfcn.h>
+#include <stdio.h>
+int c10lib_fn(int);
+static int c10_local(int x) { return x + 1; }
+int c10_exe_fn(int x) { return c10_local(x) * 2; }
+int main(int argc, char **argv)
+{
+	Dl_info di; void *h; int (*run)(int); int r = c10_exe_fn(argc) + c10lib_fn(argc);
+	if (dladdr((void *)&main, &di)) fprintf(stderr, "C10BASE %%s %%lx\n", di.dli_fname, (unsigned long)di.dli_fbase);
+	if (dladdr((void *)&c10lib_fn, &di)) fprintf(stderr, "C10BASE %%s %%lx\n", di.dli_fname, (unsigned long)di.dli_fbase);
+	h = dlopen(argv[1], %(flaga)s);
+	if (!h) { fprintf(stderr, "dlopen: %%s\n", dlerror()); return 2; }
+	run = (int (*)(int))dlsym(h, "c10a_run");
+	r += run(1);
+	r += c10_exe_fn(r);
+	return r == 12345;
+}
+"""
+
+
+def nm_funcs(path):
+    """function symbols with a size: [(addr, size, name)], aliases (several names at one address) dropped"""
+    rc, out, err = sh(["nm", "-S", "--defined-only", path], check=True)
+    by = {}
+    for l in out.splitlines():
+        k = l.split()
+        if len(k) == 4 and k[2] in "tTwW":
+            by.setdefault(int(k[0], 16), []).append((int(k[1], 16), k[3]))
+    return sorted((a, v[0][0], v[0][1]) for a, v in by.items() if len(v) == 1 and v[0][0] > 0)
+
+
+def ts_ns(txt):
+    sec, ns = txt.split(".")
+    return int(sec) * 10**9 + int(ns)
+
+
+def parse_task_txt(path):
+    import re
+    ev = []
+    for l in open(path):
+        if l.startswith("SESS"):
+            m = re.match(r'SESS timestamp=(\S+) pid=(\d+) sid=(\S+) exename="(.*)"', l)
+            ev.append(("SESS", int(m.group(2)), ts_ns(m.group(1)), m.group(3), m.group(4)))
+        elif l.startswith("TASK"):
+            m = re.match(r"TASK timestamp=(\S+) tid=(\d+) pid=(\d+)", l)
+            ev.append(("TASK", int(m.group(2)), int(m.group(3)), ts_ns(m.group(1))))
+        elif l.startswith("FORK"):
+            m = re.match(r"FORK timestamp=(\S+) pid=(\d+) ppid=(\d+)", l)
+            ev.append(("FORK", int(m.group(2)), int(m.group(3)), ts_ns(m.group(1))))
+        elif l.startswith("DLOP"):
+            m = re.match(r'DLOP timestamp=(\S+) tid=(\d+) sid=(\S+) base=([0-9a-f]+) libname="(.*)"', l)
+            ev.append(("DLOP", m.group(3), ts_ns(m.group(1)), int(m.group(4), 16), m.group(5)))
+    return ev
+
+
+def parse_replay_fields(out):
+    """`replay -f tid,addr,time,module --demangle=no` -> entry records [(tid, addr, time, module, name)]"""
+    recs = []
+    for l in out.splitlines():
+        if l.startswith("#") or "|" not in l:
+            continue
+        left, body = l.split("|", 1)
+        body = body.strip()
+        if not body or body.startswith("}") or body.startswith("/*"):
+            continue
+        k = left.replace("[", " ").replace("]", " ").split()
+        if len(k) < 4:
+            continue
+        tid, addr, t, mod = int(k[0]), int(k[1], 16), ts_ns(k[2]), " ".join(k[3:])
+        name = body.split("(")[0].strip()
+        recs.append((tid, addr, t, mod, name))
+    return recs
+
+
+R_EVALS = [
+    # the property on the implementation's own output: name (and module) of every record inside a known function
+    ("vname", "bad_indices (fun pr => match pr with (tid, t, a, ans) => ok_resolve_name rgs rtl tid t a ans end) rprobes 0"),
+    ("vmod", "bad_indices (fun pr => match pr with (shown, want) => str_eqb shown want end) rmods 0"),
+    # record side: the DLOP time stamp of a library is not later than any record at its addresses
+    ("vorder", "if ok_load_order rloads (map (fun pr => match pr with (tid, t, a, ans) => (t, a) end) rprobes) then [] else [0%nat]"),
+    # model of the analysis side on the recorded files
+    ("mismatch", "let lk := open_data dem_plain rdir in bad_indices (fun pr => match pr with (tid, t, a, ans) => "
+                 "match resolve lk tid t a, ans with Some s, Some nm => str_eqb (s_name s) nm | None, None => true | _, _ => false end end) rprobes 0"),
+]
+
+
+def r_scenario(ctx, objdir, root, tag, na, nb, nested, dep, relpath, lazy):
+    """build, record, observe; returns a dict or None (ctx.broken called)"""
+    uft = os.path.join(objdir, "uftrace")
+    w = os.path.join(root, tag)
+    os.makedirs(w)
+    flag = "RTLD_LAZY" if lazy else "RTLD_NOW"
+    src = {
+        "dep.c": R_DEP_C, "lib.c": R_LIB_C, "b.cc": R_B_CC % {"nb": nb},
+        "a.c": R_A_C % {"na": na, "flagb": flag,
+                        "depdecl": "int c10dep_fn(int);" if dep else "",
+                        "depcall": "c10dep_fn(i)" if dep else "i + 100",
+                        "deplog": ('if (dladdr((void *)&c10dep_fn, &di)) fprintf(stderr, "C10BASE %s %lx\\n", di.dli_fname, '
+                                   '(unsigned long)di.dli_fbase);') if dep else ""},
+        "main.c": R_MAIN_C % {"flaga": flag},
+    }
+    for fn, txt in src.items():
+        open(os.path.join(w, fn), "w").write(txt)
+    sh(["gcc", "-pg", "-O0", "-fPIC", "-shared", "-o", "libc10dep.so", "dep.c"], cwd=w, check=True)
+    sh(["gcc", "-pg", "-O0", "-fPIC", "-shared", "-o", "libc10lib.so", "lib.c"], cwd=w, check=True)
+    sh(["g++", "-pg", "-O0", "-fPIC", "-shared", "-o", "libc10b.so", "b.cc", "-ldl"], cwd=w, check=True)
+    sh(["gcc", "-pg", "-O0", "-fPIC", "-shared", "-o", "libc10a.so", "a.c", "-ldl"]
+       + (["-L.", "-lc10dep", "-Wl,-rpath," + w] if dep else []), cwd=w, check=True)
+    sh(["gcc", "-pg", "-O0", "-pie", "-fPIE", "-o", "prog", "main.c", "-L.", "-lc10lib", "-ldl", "-Wl,-rpath," + w], cwd=w, check=True)
+    d = os.path.join(w, "data")
+    env = {"C10_LIBB": os.path.join(w, "libc10b.so")} if nested else {"C10_LIBB": ""}
+    liba = "./libc10a.so" if relpath else os.path.join(w, "libc10a.so")
+    rc, out, err = sh(["timeout", "40", uft, "record", "--no-pager", "--no-event", "--libmcount-path=" + objdir,
+                       "-d", d, "./prog", liba], timeout=60, cwd=w, env=env)
+    if rc == 124 or not os.path.exists(os.path.join(d, "task.txt")):
+        ctx.broken("e2e(%s): uftrace record failed (rc=%d): %s" % (tag, rc, (out + err)[-300:]))
+        return None
+    bases = {}
+    for l in (out + err).splitlines():
+        if l.startswith("C10BASE "):
+            _, path, b = l.split()
+            bases[os.path.basename(path)] = int(b, 16)
+    rc, rout, rerr = datadir.uftrace(objdir, "replay", d, ["-f", "tid,addr,time,module", "--demangle=no"])
+    recs = parse_replay_fields(rout)
+    if rc != 0 or not recs:
+        ctx.broken("e2e(%s): uftrace replay failed (rc=%d): %s" % (tag, rc, (rout + rerr)[-300:]))
+        return None
+    elfs = {n: nm_funcs(os.path.join(w, n)) for n in ("prog", "libc10lib.so", "libc10a.so", "libc10b.so", "libc10dep.so")
+            if n in bases}
+    return {"tag": tag, "dir": d, "w": w, "bases": bases, "recs": recs, "elfs": elfs, "events": parse_task_txt(os.path.join(d, "task.txt")),
+            "replay": rout, "params": {"na": na, "nb": nb, "nested": nested, "dep": dep, "relpath": relpath, "lazy": lazy}}
+
+
+def r_evaluate(ctx, sc, skip_mods=()):
+    """judge every record of one recording inside Coq; returns dict of index lists (or None)"""
+    bases, elfs, recs = sc["bases"], sc["elfs"], sc["recs"]
+    mods = []            # ground truth: (start, end, table)
+    for n, tab in elfs.items():
+        if n in skip_mods or not tab:
+            continue
+        ext = max(a + s for a, s, _ in tab)
+        mods.append((n, bases[n], bases[n] + ext, [(a, s, "T", nm) for a, s, nm in tab]))
+    probes, modrows, raw = [], [], []
+    for tid, addr, t, mod, name in recs:
+        israw = name.startswith("<") and name.endswith(">")
+        inmod = [m for m in mods if m[1] <= addr < m[2] and any(a <= addr - m[1] < a + s for a, s, _, _ in m[3])]
+        skipped = any(n in skip_mods and n in bases and elfs.get(n) and
+                      bases[n] <= addr < bases[n] + max(a + s for a, s, _ in elfs[n]) for n in skip_mods)
+        if israw and not skipped:
+            raw.append((tid, addr, t, mod, name))
+        probes.append((tid, t, addr, None if israw else name))
+        if inmod:
+            modrows.append((mod, inmod[0][0]))
+    events = sc["events"]
+    d = sc["dir"]
+    maps = {}
+    for e in events:
+        if e[0] == "SESS":
+            maps[e[3]] = open(os.path.join(d, "sid-%s.map" % e[3]), "rb").read()
+    files = {}
+    for n in list(elfs) + ["libc10dep.so"]:
+        fn = os.path.join(d, n + ".sym")
+        if os.path.exists(fn):
+            files[n + ".sym"] = open(fn, "rb").read()
+    loads = []
+    for e in events:
+        if e[0] == "DLOP":
+            n = os.path.basename(e[4])
+            if n in elfs and elfs[n]:
+                loads.append((e[2], e[3], max(a + s for a, s, _ in elfs[n])))
+    tids = sorted(set(r[0] for r in recs))
+    defs = "Definition rgs : list gt_session := [mkGt [%s] []].\n" % "; ".join(
+        "(%d, %d, %s)" % (m[1], m[2], ctab(m[3])) for m in mods)
+    defs += "Definition rtl : list (Z * list (Z * nat)) := [%s].\n" % "; ".join("(%d, [(0, 0%%nat)])" % t for t in tids)
+    defs += "Definition rprobes : list (Z * Z * Z * option str) := [%s].\n" % "; ".join(
+        "(%d, %d, %d, %s)" % (p[0], p[1], p[2], copt(p[3], cstr)) for p in probes)
+    defs += "Definition rmods : list (str * str) := [%s].\n" % "; ".join("(%s, %s)" % (cstr(a), cstr(b)) for a, b in modrows)
+    defs += "Definition rloads : list (Z * Z * Z) := [%s].\n" % "; ".join("(%d, %d, %d)" % l for l in loads)
+    defs += "Definition rdir : datadir := mkDir [%s] [%s] [%s] false.\n" % (
+        "; ".join(cevent(e) for e in events),
+        "; ".join("(%s, %s)" % (cstr(k), cstr(v)) for k, v in maps.items()),
+        "; ".join("(%s, %s)" % (cstr(k), cstr(v)) for k, v in files.items()))
+    res = coq.run_cases(ctx, "cases_r_" + sc["tag"], PRE, defs, R_EVALS, timeout=600)
+    if res is None:
+        return None
+    r = {k: coq.parse_nat_list(v) for k, v in res.items()}
+    r["raw"] = raw
+    r["probes"] = probes
+    r["loads"] = loads
+    return r
+
+
+def r_replay_obj(sc, r, extra=None):
+    o = {"part": "R", "params": sc["params"], "bases": {k: "%x" % v for k, v in sc["bases"].items()},
+         "dlop": [[e[2], "%x" % e[3], e[4]] for e in sc["events"] if e[0] == "DLOP"],
+         "replay_output": sc["replay"][-3000:],
+         "unresolved": [["%x" % a, t, m] for _, a, t, m, _ in r["raw"]][:10],
+         "wrong_name": [[p[0], p[1], "%x" % p[2], p[3]] for i, p in enumerate(r["probes"]) if i in set(r["vname"])][:10]}
+    if extra:
+        o.update(extra)
+    return o
+
+
+def in_which(sc, addr):
+    for n, tab in sc["elfs"].items():
+        b = sc["bases"][n]
+        for a, s_, nm in tab:
+            if b + a <= addr < b + a + s_:
+                return "%s of %s" % (nm, n)
+    return "?"
+
+
+def part_recordings(ctx, objdir):
+    rng = ctx.rng
+    root = os.path.join(ctx.scratch, "rec")
+    os.makedirs(root, exist_ok=True)
+    variants = [("full", 2, 3, True, False, False, False)]
+    for k in range(ctx.n(1, 5)):
+        variants.append(("v%d" % k, rng.randrange(1, 4), rng.randrange(1, 4), rng.random() < 0.6, False,
+                         rng.random() < 0.5, rng.random() < 0.5))
+    for tag, na, nb, nested, dep, relpath, lazy in variants:
+        sc = r_scenario(ctx, objdir, root, tag, na, nb, nested, dep, relpath, lazy)
+        if sc is None:
+            continue
+        r = r_evaluate(ctx, sc)
+        tags = ["R:ctor", "R:c++-global-init" if nested else "R:no-nested", "R:nested-dlopen" if nested else "R:single-dlopen",
+                "R:relative-path" if relpath else "R:absolute-path", "R:lazy" if lazy else "R:now"]
+        ctx.case(key=("R", tag, na, nb, nested, relpath, lazy), tags=tags, size=len(sc["recs"]),
+                 sample={"part": "R", "params": sc["params"], "records": len(sc["recs"]),
+                         "functions": [x[4] for x in sc["recs"]][:14]} if tag == "full" else None)
+        if r is None:
+            continue
+        ctx.tag("R:records-judged", len(sc["recs"]))
+        want = {"c10a_init", "c10a_fill", "c10a_run", "c10_exe_fn", "c10_local", "c10lib_fn", "main"}
+        if nested:
+            want |= {"c10b_helper", "c10b_run", "_GLOBAL__sub_I_b.cc"}
+        addrs_seen = set(in_which(sc, x[1]).split(" of ")[0] for x in sc["recs"])
+        missing = sorted(want - addrs_seen)
+        if missing:
+            ctx.broken("e2e(%s): the recording does not contain records of %s (scenario did not run as designed)" % (tag, missing),
+                       sc["replay"][-1500:])
+        if r["raw"] or r["vname"] or r["vmod"] or r["vorder"]:
+            what = []
+            if r["raw"]:
+                what.append("records shown as raw addresses: " + ", ".join(
+                    "<%x> = %s" % (x[1], in_which(sc, x[1])) for x in r["raw"][:4]))
+            if r["vname"]:
+                what.append("%d records shown under a wrong name" % len(r["vname"]))
+            if r["vmod"]:
+                what.append("%d records shown under a wrong module" % len(r["vmod"]))
+            if r["vorder"]:
+                what.append("a DLOP time stamp is later than a record at an address of that library "
+                            "(load event must precede all records of the module)")
+            ctx.violation("real recording (dlopen of a library with static initialisers): " + "; ".join(what),
+                          r_replay_obj(sc, r), True)
+        elif r["mismatch"]:
+            ctx.violation("model of the analysis side and `uftrace replay` disagree on a real recording (%d records)" % len(r["mismatch"]),
+                          r_replay_obj(sc, r, {"first": list(r["probes"][r["mismatch"][0]])}), False)
+    # dedicated witness of a listed defect: a DT_NEEDED dependency that comes in with the dlopen()ed library
+    sc = r_scenario(ctx, objdir, root, "dep", 2, 1, False, True, False, False)
+    if sc is not None:
+        r = r_evaluate(ctx, sc, skip_mods=("libc10dep.so",))
+        ctx.case(key=("R", "dep"), tags=["R:dlopen-with-dependency"], size=len(sc["recs"]))
+        if r is not None:
+            b = sc["bases"].get("libc10dep.so")
+            ext = max(a + s_ for a, s_, _ in sc["elfs"]["libc10dep.so"]) if sc["elfs"].get("libc10dep.so") else 0
+            dep_recs = [x for x in sc["recs"] if b is not None and b <= x[1] < b + ext]
+            dep_raw = [x for x in dep_recs if x[4].startswith("<")]
+            ctx.known_finding("dlopen-dependency",
+                              "records inside a DT_NEEDED dependency loaded by dlopen() are shown as raw addresses",
+                              still_fails=bool(dep_raw),
+                              replay=r_replay_obj(sc, r, {"dependency_records": [["%x" % x[1], x[3], x[4]] for x in dep_recs][:6]}))
+            if not dep_recs:
+                ctx.broken("e2e(dep): no record inside libc10dep.so - witness did not run as designed", sc["replay"][-1500:])
+            other = r["raw"] or r["vname"] or r["vmod"] or r["vorder"]
+            if other:
+                ctx.violation("real recording (dlopen with a dependency): records outside the dependency are resolved wrongly",
+                              r_replay_obj(sc, r), True)
+
+
 # ---------------------------------------------------------------- entry points
 def meta(ctx):
     ctx.rule = ("one case = one table with its probe set (L), one symbol file (S), one map file (M), one data directory with "
@@ -997,6 +1321,8 @@ def meta(ctx):
         "harnesses harness/c/c10_harness.c (#includes utils/symbol.c and utils/session.c of the current tree) and "
         "harness/c/c10_maps.c (libmcount objects, fopen of /proc/self/maps redirected) + props/c10.py",
         "demangle() is the identity on names that are not mangled (C13); generated names are of that kind",
+        "model of the libmcount dlopen() wrapper (Model.v run_act): call order taken from the C text (wrap_dlopen_clock_first), "
+        "the rest tied by real recordings (part R); ground truth of part R = dladdr bases logged by the program + nm -S",
     ]
     ctx.assume = [
         "symbol tables are address-sorted with pairwise disjoint ranges for the completeness direction (soundness holds for "
@@ -1020,7 +1346,8 @@ def run(ctx):
     objdir, h = setup(ctx)
     for name, f in (("K kernels", lambda: part_kernels(ctx, h)), ("L lookups", lambda: part_lookup(ctx, h)),
                     ("S symbol files", lambda: part_symfiles(ctx, h)), ("M map files", lambda: part_maps(ctx, h, objdir)),
-                    ("D data directories", lambda: part_datadirs(ctx, h)), ("E end to end", lambda: part_e2e(ctx, objdir))):
+                    ("D data directories", lambda: part_datadirs(ctx, h)), ("E end to end", lambda: part_e2e(ctx, objdir)),
+                    ("R real recordings with static initialisers", lambda: part_recordings(ctx, objdir))):
         n0 = ctx.evaluations
         f()
         ctx.log("part %s: %d cases" % (name, ctx.evaluations - n0))
@@ -1061,5 +1388,7 @@ def replay(ctx, obj):
             part_maps(ctx, h, objdir)
         elif part == "E":
             part_e2e(ctx, objdir)
+        elif part == "R":
+            part_recordings(ctx, objdir)
         else:
             part_kernels(ctx, h)
